@@ -554,7 +554,27 @@ func (c *fileCtx) call(x *ast.CallExpr) {
 			c.replace(x.Pos(), x.Args[0].Pos(), fmt.Sprintf("%s.OnceDo(%s, %s.Do, ", alias, key, c.text(sel.X)))
 			rep.Counts["once"]++
 		}
-	case "(*sync.WaitGroup).Wait", "(*sync.Cond).Wait":
+	case "(*sync.WaitGroup).Wait", "(*sync.WaitGroup).Done", "(*sync.WaitGroup).Add":
+		if !simpleOperand(sel.X) {
+			c.unsupported(x.Pos(), c.methodOf(sel)+" on an expression with calls")
+			return
+		}
+		key := "&" + c.text(sel.X)
+		if t := c.info.TypeOf(sel.X); t != nil {
+			if _, isPtr := t.Underlying().(*types.Pointer); isPtr {
+				key = c.text(sel.X)
+			}
+		}
+		fn := map[string]string{"Wait": "WGWait", "Done": "WGDone", "Add": "WGAdd"}[sel.Sel.Name]
+		if sel.Sel.Name == "Add" {
+			if len(x.Args) == 1 {
+				c.replace(x.Pos(), x.Args[0].Pos(), fmt.Sprintf("%s.%s(%s, %s.Add, ", alias, fn, key, c.text(sel.X)))
+			}
+		} else {
+			c.replace(x.Pos(), x.End(), fmt.Sprintf("%s.%s(%s, %s.%s)", alias, fn, key, c.text(sel.X), sel.Sel.Name))
+		}
+		rep.Counts["waitgroup"]++
+	case "(*sync.Cond).Wait":
 		c.unsupported(x.Pos(), c.methodOf(sel))
 	}
 }
